@@ -261,9 +261,15 @@ Definition C01q_spec (c : cfg) (i : C11q_in) (o : C11q_out) : bool :=
 
 (** Chart level: aux = (resolution, tempo map as written); every timed point and every note end of the
     implementation's chart is within the slack of the exact time of its tick. *)
-Definition C01c_spec (aux : bool * Z * list (Z * Z)) (o : parse_out) : bool :=
-  let '(wf, res, tm) := aux in
+Definition C01c_spec (aux : bool * Z * list (Z * Z) * option (list Z)) (o : parse_out) : bool :=
+  let '(wf, res, tm, ends) := aux in
   on_chart wf o (fun ch _ =>
+    (* the ticks at which the notes end are the WRITTEN ones (tick + longest written lane / open length), when the case says them *)
+    match ends with
+    | Some l => Nat.eqb (length (note_ends ch)) (length l)
+                && forallb (fun p => match fst (fst p) with Ok x => x =? snd p | Err _ => false end) (combine (note_ends ch) l)
+    | None => true
+    end &&
     forallb (fun e => negb (in_C01_domain res tm (t_tick e)) || within_slack res tm (t_tick e) (t_ts e))
             (all_timed ch)
     && forallb (fun p => match fst p with
